@@ -24,7 +24,7 @@ class Ctx:
     """One execution path.  mode: 'sym' (symbols), 'conc' (values from oracle, engine run),
     the native world (real objects) lives in worlds.py and does not use Ctx."""
 
-    def __init__(self, mode, decisions=None, oracle=None, stats=None, feas_timeout_ms=5000, rng=None):
+    def __init__(self, mode, decisions=None, oracle=None, stats=None, feas_timeout_ms=1500, rng=None):
         self.mode = mode
         self.pc = []
         self.exact = []
@@ -67,7 +67,59 @@ class Ctx:
     def _check(self, extra):
         import time
         t0 = time.time()
-        r = self.solver.check(extra)
+        self._last_model = None
+
+        def default():
+            res = self.solver.check(extra)
+            if res == z3.sat:
+                self._last_model = self.solver.model()
+            return res
+
+        def intblast():
+            # int-blasting (bit-vector terms as linear integer arithmetic) in a fresh non-incremental solver
+            try:
+                sv = z3.SimpleSolver()
+                sv.set("timeout", 4000)
+                sv.set("smt.bv.solver", 2)
+                for c in self.pc:
+                    sv.add(c)
+                sv.add(extra)
+                res = sv.check()
+                if res == z3.sat:
+                    self._last_model = sv.model()
+                return res
+            except z3.Z3Exception:
+                return z3.unknown
+        def fresh():
+            # the same query in a fresh non-incremental solver (tactic pipeline + bit-blasting): often decides in
+            # milliseconds what the incremental core gives up on
+            sv = z3.Solver()
+            sv.set("timeout", 5000)
+            for c in self.pc:
+                sv.add(c)
+            sv.add(extra)
+            res = sv.check()
+            if res == z3.sat:
+                self._last_model = sv.model()
+            return res
+        prof = self.stats.__dict__.setdefault("feas_prof", {})
+
+        def timed(name, fn):
+            t1 = time.time()
+            res = fn()
+            e = prof.setdefault(name + ":" + str(res), [0, 0.0])
+            e[0] += 1
+            e[1] += time.time() - t1
+            return res
+        r = timed("inc", default)
+        if r == z3.unknown:
+            r = timed("fresh", fresh)
+        if r == z3.unknown:
+            r = timed("intblast", intblast)
+            import os
+            if os.environ.get("PYVC_HARD"):
+                with open(os.environ["PYVC_HARD"], "a") as f:
+                    f.write("%s %s :: %s\n" % (r, getattr(self, "site", None), z3.simplify(extra).sexpr().replace("\n", " ")[:600]))
         self.stats.feas_queries += 1
         self.stats.solver_s += time.time() - t0
         import os
@@ -99,14 +151,14 @@ class Ctx:
                 rt = self._check(cond)
                 can_t = rt != z3.unsat
                 if rt == z3.sat:
-                    mt = self.solver.model()
+                    mt = self._last_model
             if val is False:
                 can_f, mf = True, self._model
             else:
                 rf = self._check(z3.Not(cond))
                 can_f = rf != z3.unsat
                 if rf == z3.sat:
-                    mf = self.solver.model()
+                    mf = self._last_model
             self._model = mt if can_t else mf
             if can_t and can_f:
                 self.new_alternatives.append(self.decisions[:self.pos] + [False])
